@@ -16,6 +16,8 @@
      F-j  DoubleWaker takes both and calls queue waker first                      (FWake (WDouble k))
      F-k  WakeThread: core section, then unpark                                   (FWake (WThread c), FUnpark)
      F-l  drain does NOT call reschedule_queue when it returns                    (FDRpend, FDRfin)
+   PANICS: wherever the code would panic! (take of a Returned result, the Panic arms of the tables) the model's step is None:
+   the actor is stuck at that frame ([would_panic] below); the theorems show such states unreachable.
    Wakers are called as NESTED FRAMES on the calling thread's stack ([FWake w] pushed on top), exactly as in the code; a wake
    "from another thread" is a wake executed by the firing caller's actor and interleaves anywhere with the runner. *)
 From stdpp Require Import list numbers option.
@@ -55,7 +57,6 @@ Inductive kont := KDrain | KRoj | KDq (f d : nat).
 
 Inductive frame :=
 | FTop (script : list cop)
-| FPanic (r : bool)      (* the code's panic!; r = the thread died while running the queue (shown unreachable) *)
 (* schedule_job_desync *)
 | FD1 (j : job) | FD2
 (* use of a returned SchedulerFuture *)
@@ -160,7 +161,7 @@ Definition step_job (s : state) (a : nat) (rest : list frame) (j : job) (w : wak
   | JPlain op => Some (setstack (addlog s [GFinish op; GStart op]) a (ret_ready k :: rest))
   | JSync op c tk =>
       match run_closure s op tk with
-      | None => Some (setstack s a (FPanic true :: rest))
+      | None => None
       | Some s1 => Some (setstack (setsres s1 c true) a (ret_ready k :: rest))
       end
   | JFut op NotCreated sc => Some (setstack (addlog s [GStart op]) a (FJob (JFut op Waiting sc) w k :: rest))
@@ -207,11 +208,11 @@ Definition step_wake_with (T : ftables) (s : state) (a : nat) (rest : list frame
 (* ---------- SchedulerFuture::poll and drain_queue, run by caller [a] ---------- *)
 Definition step_fut (T : ftables) (s : state) (a : nat) (rest : list frame) (fr : frame) : option state :=
   let goto s' f := Some (setstack s' a (f :: rest)) in
-  let panic := Some (setstack s a (FPanic true :: rest)) in
+  let panic : option state := None in
   match fr with
   | FSFpoll f =>                                      (* [fres f], nested [core] *)
       match take_f s f with
-      | None => Some (setstack s a (FPanic false :: rest))
+      | None => None
       | Some (s1, Some v) => Some (setstackreg s1 a rest RReady)
       | Some (_, None) =>
           let '(st', act) := T.(t_poll) f s.(qs) in
@@ -220,7 +221,7 @@ Definition step_fut (T : ftables) (s : state) (a : nat) (rest : list frame) (fr 
           match act with
           | PAWait => Some (setstackreg store a rest RPending)
           | PADrain => goto s1 (FDQtake f)
-          | PAPanic => Some (setstack store a (FPanic false :: rest))
+          | PAPanic => None
           end
       end
   | FDQtake f =>                                      (* [fres f] *)
@@ -260,7 +261,7 @@ Definition step_fut (T : ftables) (s : state) (a : nat) (rest : list frame) (fr 
 (* ---------- sync (plain closure, or SchedulerFuture::sync() when tk = Some f), run_one_job_now, reschedule_queue ---------- *)
 Definition step_sync (T : ftables) (s : state) (a : nat) (sr : bool) (tok : bool) (rest : list frame) (fr : frame) : option state :=
   let goto s' f := Some (setstack s' a (f :: rest)) in
-  let panic := Some (setstack s a (FPanic true :: rest)) in
+  let panic : option state := None in
   let B := T.(ft_base) in
   match fr with
   | FS1 op tk =>                                      (* [core] *)
@@ -270,7 +271,7 @@ Definition step_sync (T : ftables) (s : state) (a : nat) (sr : bool) (tok : bool
       | SAImmediate => goto (addlog s1 [GPush op]) (FClosure op tk)
       | SADrain => goto s1 (FSDpush op tk)
       | SABackground => goto s1 (FSBreg op tk)
-      | SAPanic => Some (setstack s1 a (FPanic false :: rest))
+      | SAPanic => None
       end
   | FClosure op tk => match run_closure s op tk with None => panic | Some s1 => goto s1 FSIidle end   (* LNone | [fres f] *)
   | FSIidle => Some (setstack (s <| qs := Idle |>) a (FRQ1 :: rest))                                            (* [core] *)
@@ -344,7 +345,7 @@ Definition step_pool (T : ftables) (s : state) (a : nat) (rest : list frame) (fr
 (* ---------- caller top level, schedule_job_desync, uses of a returned future, fire ---------- *)
 Definition step_caller (T : ftables) (s : state) (a : nat) (r : preg) (tok : bool) (rest : list frame) (fr : frame) : option state :=
   let goto s' f := Some (setstack s' a (f :: rest)) in
-  let panic := Some (setstack s a (FPanic false :: rest)) in
+  let panic : option state := None in
   match fr with
   | FTop [] => None
   | FTop (o :: os) =>
@@ -362,7 +363,6 @@ Definition step_caller (T : ftables) (s : state) (a : nat) (r : preg) (tok : boo
       | OSync => Some (setstack s1 a (FS1 op None :: FTop os :: rest))
       | OFire e => Some (setstack s a (FFire e :: FTop os :: rest))
       end
-  | FPanic _ => None
   | FD1 j =>                                          (* [core] push_back, then the table *)
       let '(st', act) := T.(ft_base).(t_desync) s.(qs) in
       let op := match j with JPlain o | JFut o _ _ | JSync o _ _ => o end in
@@ -370,7 +370,7 @@ Definition step_caller (T : ftables) (s : state) (a : nat) (r : preg) (tok : boo
       match act with
       | DASchedule => goto s1 FD2
       | DANone => Some (setstack s1 a rest)
-      | DAPanic => Some (setstack s1 a (FPanic false :: rest))
+      | DAPanic => None
       end
   | FD2 => Some (setstack (s <| insched := S s.(insched) |>) a rest)       (* [sched] push_back *)
   | FUse f u =>
@@ -446,3 +446,18 @@ Definition init (scripts : list (list cop)) (npool nev : nat) : state :=
 
 Definition enabled (T : ftables) (s : state) (a : nat) : bool := bool_decide (is_Some (step T s a)).
 Definition terminal (T : ftables) (s : state) : Prop := forall a, step T s a = None.
+
+(* an actor that is disabled because the code would panic at this program point *)
+Definition would_panic (T : ftables) (s : state) (a : nat) : bool :=
+  match s.(actors) !! a with
+  | Some ac => match ac.(stack) with
+    | FSFpoll f :: _ => match (getf s f).(res) with FReturned => true | FNone => match (T.(t_poll) f s.(qs)).2 with PAPanic => true | _ => false end | _ => false end
+    | FDQtake f :: _ | FDQtake2 f _ :: _ | FFS1 f :: _ | FClosure _ (Some f) :: _ | FJob (JSync _ _ (Some f)) _ _ :: _ =>
+        match (getf s f).(res) with FReturned => true | _ => false end
+    | FS1 _ _ :: _ => match (T.(ft_base).(t_sync) s.(qs) (bool_decide (s.(jobs) = []))).2 with SAPanic => true | _ => false end
+    | FD1 _ :: _ => match (T.(ft_base).(t_desync) s.(qs)).2 with DAPanic => true | _ => false end
+    | FROpend _ :: _ => match T.(t_roj_pend) s.(qs) with None => true | _ => false end
+    | FROcheck _ :: _ => match T.(t_roj_park) s.(qs) with PKPanic => true | _ => false end
+    | _ => false end
+  | None => false
+  end.
